@@ -518,6 +518,10 @@ func (c *FCtx) callContract(st *State, con *Contract, fi *FuncInfo, fn *types.Fu
 				continue
 			}
 			if declared(refs[i].name, refs[j].name) {
+				if con.AliasSame[refs[i].name+"|"+refs[j].name] && refs[i].cell == refs[j].cell && refs[i].isLV && refs[j].isLV {
+					d := Or(disjoint(refs[i], refs[j]), Eq(refs[i].lo, refs[j].lo))
+					c.oblige(st, "call-pre", fmt.Sprintf("call %s/disjoint-or-same-start(%s,%s)", short, refs[i].name, refs[j].name), d, pos)
+				}
 				continue
 			}
 			d := disjoint(refs[i], refs[j])
